@@ -255,7 +255,7 @@ func runC20(c *Ctx) {
 	}
 	w.Dir = wd
 	g1 := implGoroutines()
-	for k := 0; k < 50 && g1 > g0; k++ {
+	for k := 0; k < 250 && g1 > g0; k++ {
 		time.Sleep(100 * time.Millisecond)
 		g1 = implGoroutines()
 	}
@@ -298,9 +298,9 @@ func runC20(c *Ctx) {
 		}
 		w.Delay = 0
 		// goroutines that belong to the code under test (idle HTTP keep-alive connections of the transport do not
-		// count); a pass that was in flight when Cleanup came ends by itself: wait for that, up to 8 s
+		// count); a pass that was in flight when Cleanup came ends by itself: wait for that
 		ga := implGoroutines()
-		for k := 0; k < 80 && ga > gb; k++ {
+		for k := 0; k < 250 && ga > gb; k++ { // up to 25 s: a pass in flight may sit in its retry loops (5 x 500 ms per download, 5 x 1 s per database)
 			time.Sleep(100 * time.Millisecond)
 			ga = implGoroutines()
 		}
